@@ -458,6 +458,12 @@ func (p *gRepeat0) Match(src []*types.Token, ctx *Context) (n int, result any, e
 				return
 			}
 		}
+		if n1 == 0 && err1 == nil {
+			// the operand matched without consuming any token:
+			// repeating it again would never end
+			result = rets
+			return
+		}
 		rets = append(rets, ret1)
 		n += n1
 		src = src[n1:]
@@ -500,6 +506,12 @@ func (p *gRepeat1) Match(src []*types.Token, ctx *Context) (n int, result any, e
 				result = rets
 				return
 			}
+		}
+		if n1 == 0 && err1 == nil {
+			// the operand matched without consuming any token:
+			// repeating it again would never end
+			result = rets
+			return
 		}
 		rets = append(rets, ret1)
 		n += n1
